@@ -130,6 +130,15 @@ func standardPhases(mons []string, suffix int, thorough bool) []Phase {
 				bn = append(bn, sched.Item{Scenario: fmt.Sprintf("badgernode:0:%d:%s", cache, base), Mode: "s3", Mons: mons, Suffix: suffix})
 			}
 		}
+		// the application applies its k-th block but the reply is lost: the delivery sequence must stay what it is
+		// (every index once, round-received strictly increasing); what the node stores for that block is not judged
+		var cf []sched.Item
+		for node := 0; node < 3; node++ {
+			for k := 1; k <= 8; k++ {
+				cf = append(cf, sched.Item{Scenario: fmt.Sprintf("commitfault:3:45:%d:%d", node, k), Mode: "s3", Mons: []string{"C02seq"}, Suffix: suffix})
+			}
+		}
+		add("commit call k=1..8 of node 0/1/2 applied by the application, reply lost (static3 seed): delivery sequence only", cf)
 		add("node 0 on a BadgerStore with cache 20/25/40/101 (just above the in-flight window: what it reports for old blocks comes from the database): static3, join3to4, leave4to3, late witness, d=0", bn)
 		add("a validator (2 of 3 / 3 of 4) on Badger with fast-sync enabled stops at d (d=10..60) and is restarted with bootstrap 0/12/30 steps later, then runs Node.fastForward (anchor behind, at or ahead of its own last block)", fb)
 	}
